@@ -1,6 +1,7 @@
 import MesonModel.Cargo.Model
 import MesonModel.Cargo.CacheModel
 import MesonModel.Cargo.CfgTableModel
+import MesonModel.Cargo.ResolveModel
 import MesonModel.Generated.CargoCache
 import Driver.Proto
 /- driver commands of area `cargo` (C20) -/
@@ -120,7 +121,72 @@ def runCfgs (host build : List (List Char)) (args calls : String) : String :=
       (showTable r.2 :: acc.1, r.1)) ([], ⟨host, build, []⟩)
   ";".intercalate (outs.reverse ++ ["H:" ++ encodeStrList st.baseHost, "B:" ++ encodeStrList st.baseBuild])
 
+/-! consumers (`Cargo/ResolveModel.lean`) -/
+open MesonModel.Cargo.Resolve in
+/-- `name=version,name=version` (both sides code-point encoded); the field `NOLOCK` = no Cargo.lock -/
+def readLock (f : String) : Option (List LockPkg) :=
+  if f.trimAscii.toString == "NOLOCK" then none
+  else some ((readCfgs f).map (fun kv => ⟨kv.1, kv.2⟩))
+
+def showDeps (d : MesonModel.Cargo.Resolve.Deps) : String := showTable d
+
+/-- `cond:k=v,k=v;cond:…` -/
+def readTargets (f : String) : List (List Char × MesonModel.Cargo.Resolve.Deps) :=
+  if f.trimAscii.isEmpty then [] else
+  (f.splitOn ";").map (fun e =>
+    match e.splitOn ":" with
+    | [c, d] => (decodeStr c, readCfgs d)
+    | _ => ([], []))
+
+def showMerge : Except PErr MesonModel.Cargo.Resolve.Deps → String
+  | .ok d => "OK:" ++ showDeps d
+  | .error _ => "ERR"
+
+open MesonModel.Cargo.Resolve in
+def handleResolve (cmd : String) (fs : List String) : Option String :=
+  match cmd, fs with
+  | "apiof", [v] => some (showApi (apiOf (decodeStr v)))
+  | "named", [l, n] =>
+    match readLock l with
+    | none => some "NOLOCK"
+    | some lk => some (encodeStrList ((named lk (decodeStr n)).map (fun p => p.version)))
+  | "resolve", [l, n, r] =>
+    match resolveWith (readLock l) (decodeStr n) (cargoParse (decodeStr r)) with
+    | none => some "NONE"
+    | some p => some ("V:" ++ encodeStr p.version)
+  | "resolveapi", [l, n, a] =>
+    match resolvePackageApi (readLock l) (decodeStr n) (decodeStr a) with
+    | none => some "NONE"
+    | some x => some (showApi x)
+  | "deppin", [l, n, r] =>
+    let x := depPin (readLock l) (decodeStr n) (decodeStr r)
+    some ("R:" ++ encodeStr x.1 ++ ";" ++ showApi x.2)
+  | "merge", [t, cs, b, ts] =>
+    some (showMerge (mergeTargets (decodeStr t) (readCfgs cs) (readCfgs b) (readTargets ts)))
+  | "mergehist", [b, ts, calls] =>
+    let cl : List (List Char × Cfgs) :=
+      if calls.trimAscii.isEmpty then [] else
+      (calls.splitOn ";").map (fun e =>
+        match e.splitOn ":" with
+        | [t, c] => (decodeStr t, readCfgs c)
+        | _ => ([], []))
+    match mergeHistory (readCfgs b) (readTargets ts) cl with
+    | .error _ => some "ERR"
+    | .ok ds => some ("OK:" ++ ";".intercalate (ds.map showDeps))
+  | "mesonver", [v] =>
+    match mesonVersion (decodeStr v) with
+    | .error _ => some "ERR:IndexError"
+    | .ok cs => some ("OK:" ++ encodeStrList cs)
+  | "sysdep", [r, v] =>
+    match systemDepAccepts (decodeStr r) (decodeStr v) with
+    | .error _ => some "ERR:IndexError"
+    | .ok b => some (boolStr b)
+  | _, _ => none
+
 def handle (cmd : String) (fs : List String) : String :=
+  match handleResolve cmd fs with
+  | some a => a
+  | none =>
   match cmd, fs with
   | "split", [r] =>
     ";".intercalate ((split (decodeStr r)).map (fun c => showOp c.1 ++ ":" ++ encodeStr c.2))
